@@ -8,7 +8,9 @@ import (
 	"regexp"
 	"runtime"
 	"sort"
+	"strconv"
 	"strings"
+	"time"
 
 	"verif/lib/vlib"
 
@@ -124,6 +126,10 @@ func readImportString(w string) (r reading) {
 	return readingOf(bmnumbers.ImportString(w))
 }
 
+// wall budget for replaying the witnesses of one pair through the import functions (only matters
+// when an import function is slow, i.e. the FloPoCo one, which executes an external tool)
+const pairReplayBudget = 15 * time.Second
+
 type pairStat struct {
 	A, B        string
 	States      int
@@ -145,7 +151,7 @@ type ambiguity struct {
 func (am *ambiguity) validateNFA(m *matcher, upTo int) {
 	// both directions: automaton acceptance == regexp.MatchString for every string up to upTo runes
 	// over the matcher's own class alphabet (first and last member of every class).
-	al := buildAlphabet(m.nfa)
+	al := buildAlphabet(false, m.nfa)
 	var letters []rune
 	for _, r := range al.reps {
 		letters = append(letters, r)
@@ -241,15 +247,22 @@ func (am *ambiguity) pair(a, b *matcher, all []*matcher) {
 		return
 	}
 	ws := res.Witnesses
-	if len(*res.Witness) > am.maxLen || len(ws) == 0 {
-		ws = append([]string{*res.Witness}, ws...)
+	if len(ws) == 0 {
+		ws = []string{*res.Witness}
 	}
 	ps.Witness = *res.Witness
 	famA, famB := map[string]bool{}, map[string]bool{}
 	kinds := map[string]bool{}
 	var firstDiff string
 	var rdA, rdB reading
-	for _, w := range ws {
+	replayed := len(ws)
+	replayStart := time.Now()
+	cut := false
+	for i, w := range ws {
+		if time.Since(replayStart) > pairReplayBudget {
+			replayed, cut = i, true
+			break
+		}
 		am.traces++
 		if !a.re.MatchString(w) || !b.re.MatchString(w) {
 			harnessError("witness %q of pair %q / %q is not accepted by both real regexps", w, a.pat, b.pat)
@@ -257,12 +270,13 @@ func (am *ambiguity) pair(a, b *matcher, all []*matcher) {
 		ra, rb := readWith(a, w), readWith(b, w)
 		// the real ImportString must produce the reading of one of the matchers that accept w
 		var accepted []reading
+		accepted = append(accepted, ra, rb)
 		for _, m := range all {
-			if m.re.MatchString(w) {
+			if m != a && m != b && m.re.MatchString(w) {
 				accepted = append(accepted, readWith(m, w))
 			}
 		}
-		for i := 0; i < 6; i++ {
+		for i := 0; i < 2; i++ {
 			ri := readImportString(w)
 			am.traces++
 			ok := false
@@ -292,12 +306,19 @@ func (am *ambiguity) pair(a, b *matcher, all []*matcher) {
 			default:
 				kinds["value"] = true
 			}
-			if firstDiff == "" {
-				firstDiff, rdA, rdB = w, ra, rb
-			}
+			firstDiff, rdA, rdB = w, ra, rb
+			replayed = i + 1
+			break // the pair is ambiguous with differing meaning: no need to replay the longer witnesses
 		}
 	}
-	am.run.Add("witnesses_replayed", len(ws))
+	am.run.Add("witnesses_replayed", replayed)
+	if firstDiff == "" && cut {
+		ps.Verdict = fmt.Sprintf("overlap, unclassified: the first %d of %d witnesses read identically, replay cut by the %v per-pair budget", replayed, len(ws), pairReplayBudget)
+		am.run.Add("overlaps_unclassified", 1)
+		am.run.Set("pair_replay_budget_hit", true)
+		am.pairs = append(am.pairs, ps)
+		return
+	}
 	if firstDiff == "" {
 		ps.Verdict = "benign-overlap"
 		if a.fnPtr != b.fnPtr {
@@ -328,12 +349,15 @@ func (am *ambiguity) pair(a, b *matcher, all []*matcher) {
 	}
 	sort.Strings(ks)
 	pn := ""
-	if pr, err := processNumber(firstDiff); err == nil {
-		pn = fmt.Sprintf("; procbuilder.Process_number(%q) returned %q in this run", firstDiff, pr)
+	if _, err := processNumber(firstDiff); err == nil && rdA.Err == "" && rdB.Err == "" {
+		am.traces++
+		ba, _ := strconv.ParseUint(rdA.Value, 16, 64)
+		bb, _ := strconv.ParseUint(rdB.Value, 16, 64)
+		pn = fmt.Sprintf("; procbuilder.Process_number(%q) accordingly yields %q or %q", firstDiff, strconv.FormatUint(ba, 2), strconv.FormatUint(bb, 2))
 	}
 	sig := "C08|ambiguous|" + fam(famA) + "~" + fam(famB) + "|" + patTag(a.pat) + " ~ " + patTag(b.pat)
-	what := fmt.Sprintf("literal %q is claimed by two matchers and ImportString picks whichever the AllMatchers map iteration yields first: %q (%s) reads it as %s, %q (%s) reads it as %s; readings differ in %s over %d jointly accepted strings up to length %d (shortest ambiguous string %q)%s",
-		firstDiff, a.pat, a.fnName, rdA, b.pat, b.fnName, rdB, strings.Join(ks, ","), len(ws), am.maxLen, *res.Witness, pn)
+	what := fmt.Sprintf("literal %q is claimed by two matchers and ImportString picks whichever the AllMatchers map iteration yields first: %q (%s) reads it as %s, %q (%s) reads it as %s; readings differ in %s; it is the first differing one of the %d jointly accepted strings up to length %d over the class alphabet, replayed shortest first (shortest jointly accepted string %q)%s",
+		firstDiff, a.pat, a.fnName, rdA, b.pat, b.fnName, rdB, strings.Join(ks, ","), len(ws), res.EnumLen, *res.Witness, pn)
 	am.run.Report(sig, what, map[string]any{"kind": "pair", "a": a.pat, "b": b.pat, "witness": firstDiff})
 }
 
